@@ -180,7 +180,11 @@ pub struct PageEnt {
     pub state: AtomicUsize,
     pub freed_step: AtomicU64,
     pub frees: AtomicU32,
+    /// position in the sequence of all page-block allocations / frees of this process
+    pub alloc_seq: AtomicU64,
+    pub free_seq: AtomicU64,
 }
+static PAGE_SEQ: AtomicU64 = AtomicU64::new(1);
 const NPG: usize = 4096;
 pub static PAGES: [PageEnt; NPG] = [const {
     PageEnt {
@@ -190,6 +194,8 @@ pub static PAGES: [PageEnt; NPG] = [const {
         state: AtomicUsize::new(0),
         freed_step: AtomicU64::new(0),
         frees: AtomicU32::new(0),
+        alloc_seq: AtomicU64::new(0),
+        free_seq: AtomicU64::new(0),
     }
 }; NPG];
 pub static NPAGES: AtomicUsize = AtomicUsize::new(0);
@@ -198,6 +204,11 @@ pub static NPAGES: AtomicUsize = AtomicUsize::new(0);
 /// fault, but it also hides bugs that need an *address to come back* - anything keyed by the
 /// address of machine code or its data section.
 pub static PAGE_REUSE: std::sync::atomic::AtomicBool = std::sync::atomic::AtomicBool::new(false);
+/// With `PAGE_REUSE`: of the module whose block was freed last, take the fitting block that was
+/// allocated first, so that a module of the same shape gets every block back in the same role
+/// (code for code, data for data). Off: the block freed last (roles cross over unless a module
+/// has one block per size).
+pub static PAGE_REUSE_SAME_ROLE: std::sync::atomic::AtomicBool = std::sync::atomic::AtomicBool::new(false);
 pub static ST_PAGE_REUSED: AtomicU64 = AtomicU64::new(0);
 
 const NMOD: usize = 8192;
@@ -310,10 +321,20 @@ unsafe fn arena_alloc(size: usize, align: usize, run: bool) -> *mut u8 {
         // most recently freed block of exactly this size
         let n = NPAGES.load(SeqCst).min(NPG);
         let want = align_up(size.max(1), PAGE);
+        let same_role = PAGE_REUSE_SAME_ROLE.load(Relaxed);
+        let fits = |e: &PageEnt| e.state.load(SeqCst) == PG_FREED && e.len.load(SeqCst) == want && e.start.load(SeqCst) % align == 0;
+        // the block of this size that was freed last ...
         let mut best: Option<usize> = None;
         for (i, e) in PAGES[..n].iter().enumerate() {
-            if e.state.load(SeqCst) == PG_FREED && e.len.load(SeqCst) == want && e.start.load(SeqCst) % align == 0 {
-                if best.map(|b| PAGES[b].freed_step.load(SeqCst) <= e.freed_step.load(SeqCst)).unwrap_or(true) {
+            if fits(e) && best.map(|b| PAGES[b].free_seq.load(SeqCst) < e.free_seq.load(SeqCst)).unwrap_or(true) {
+                best = Some(i);
+            }
+        }
+        // ... or, of the module it belonged to, the fitting block that was allocated first
+        if let (true, Some(b)) = (same_role, best) {
+            let m = PAGES[b].module.load(SeqCst);
+            for (i, e) in PAGES[..n].iter().enumerate() {
+                if fits(e) && e.module.load(SeqCst) == m && e.alloc_seq.load(SeqCst) < PAGES[best.unwrap()].alloc_seq.load(SeqCst) {
                     best = Some(i);
                 }
             }
@@ -330,6 +351,7 @@ unsafe fn arena_alloc(size: usize, align: usize, run: bool) -> *mut u8 {
                 std::ptr::write_bytes(user as *mut u8, POISON_FRESH, size);
             }
             e.module.store(CUR_MODULE.try_with(|c| c.get()).unwrap_or(u32::MAX), SeqCst);
+            e.alloc_seq.store(PAGE_SEQ.fetch_add(1, SeqCst), SeqCst);
             e.state.store(PG_LIVE, SeqCst);
             MOD_ALLOC[mod_slot(CUR_MODULE.try_with(|c| c.get()).unwrap_or(u32::MAX))].fetch_add(1, SeqCst);
             ST_PAGE_REUSED.fetch_add(1, Relaxed);
@@ -377,6 +399,7 @@ unsafe fn arena_alloc(size: usize, align: usize, run: bool) -> *mut u8 {
                         .store(CUR_MODULE.try_with(|c| c.get()).unwrap_or(u32::MAX), SeqCst);
                     e.freed_step.store(0, SeqCst);
                     e.frees.store(0, SeqCst);
+                    e.alloc_seq.store(PAGE_SEQ.fetch_add(1, SeqCst), SeqCst);
                     e.state.store(PG_LIVE, SeqCst);
                 }
                 MOD_ALLOC[mod_slot(CUR_MODULE.try_with(|c| c.get()).unwrap_or(u32::MAX))].fetch_add(1, SeqCst);
@@ -477,6 +500,7 @@ unsafe impl GlobalAlloc for SimAlloc {
                             MOD_FREE[mod_slot(e.module.load(SeqCst))].fetch_add(1, SeqCst);
                             e.state.store(PG_FREED, SeqCst);
                             e.freed_step.store(CUR_STEP.load(Relaxed), SeqCst);
+                            e.free_seq.store(PAGE_SEQ.fetch_add(1, SeqCst), SeqCst);
                             e.frees.fetch_add(1, SeqCst);
                         }
                     }
